@@ -542,7 +542,7 @@ theorem arith_spec (k : String) (hk : k ∈ ["+", "-", "*", "/", "%", "min", "ma
   simp only [List.mem_cons, List.not_mem_nil, or_false] at hk
   rcases hk with rfl | rfl | rfl | rfl | rfl | rfl | rfl
   · rw [plus_spec]; rfl
-  · have : findEntry "-".toList Tables.eager = some ⟨"-".toList, "-".toList, .variadic 1 3, "411fedaaa3d4".toList⟩ := by
+  · have : findEntry "-".toList Tables.eager = some ⟨"-".toList, "-".toList, .variadic 1 3⟩ := by
       decide +kernel
     rw [this] at he; cases he
     rcases items with _ | ⟨a, _ | ⟨b, rest⟩⟩
@@ -550,14 +550,14 @@ theorem arith_spec (k : String) (hk : k ∈ ["+", "-", "*", "/", "%", "min", "ma
     · rw [neg_spec a (hwf a List.mem_cons_self)]; rfl
     · rw [minus_spec]; rfl
   · rw [times_spec]; rfl
-  · have : findEntry "/".toList Tables.eager = some ⟨"/".toList, "/".toList, .exactly 2, "248bead61665".toList⟩ := by
+  · have : findEntry "/".toList Tables.eager = some ⟨"/".toList, "/".toList, .exactly 2⟩ := by
       decide +kernel
     rw [this] at he; cases he
     rcases items with _ | ⟨a, _ | ⟨b, rest⟩⟩
     · simp [Arity.isValidLen] at hl
     · simp [Arity.isValidLen] at hl
     · rw [div_spec]; rfl
-  · have : findEntry "%".toList Tables.eager = some ⟨"%".toList, "%".toList, .exactly 2, "2def0f18c72a".toList⟩ := by
+  · have : findEntry "%".toList Tables.eager = some ⟨"%".toList, "%".toList, .exactly 2⟩ := by
       decide +kernel
     rw [this] at he; cases he
     rcases items with _ | ⟨a, _ | ⟨b, rest⟩⟩
@@ -778,7 +778,7 @@ example : (Json.arr [.num (.flt (F64.ofDecimal false 15 (-1))), .str "x".toList]
 example : F64.OnGrid (3 * S) ∧ F64.OnGrid (2 * S) ∧ 2 * S ≠ 0 := by decide +kernel
 example : maxOf [.num (.pos 1), .str "3".toList] = some (F64.ofNat 3) := by decide +kernel
 example : ∃ e, findEntry "-".toList Tables.eager = some e ∧ e.arity.isValidLen [Json.null].length = true :=
-  ⟨⟨"-".toList, "-".toList, .variadic 1 3, "411fedaaa3d4".toList⟩, by decide +kernel, by decide +kernel⟩
+  ⟨⟨"-".toList, "-".toList, .variadic 1 3⟩, by decide +kernel, by decide +kernel⟩
 -- `F64.WF` is needed for `-1.0 * x = -x`: a 61-bit "mantissa" is not a double and gets rounded
 example : F64.mul (F64.fin true S) (F64.fin false (2^60 + 1)) ≠ F64.negate (F64.fin false (2^60 + 1)) := by
   decide +kernel
